@@ -2,32 +2,68 @@
 
 use crate::PropDef;
 
+#[cfg(not(feature = "slim"))]
 pub mod c01;
+#[cfg(not(feature = "slim"))]
 pub mod c02;
+#[cfg(not(feature = "slim"))]
 pub mod c03;
 pub mod c04;
 pub mod c05;
 pub mod c06;
+#[cfg(not(feature = "slim"))]
 pub mod c07;
 pub mod c08;
+#[cfg(not(feature = "slim"))]
 pub mod c09;
 pub mod c10;
 pub mod c11;
 pub mod c12;
+pub mod c13;
+#[cfg(not(feature = "slim"))]
+pub mod c14;
+#[cfg(not(feature = "slim"))]
+pub mod c15;
+pub mod c16;
+#[cfg(not(feature = "slim"))]
+pub mod c17;
+#[cfg(not(feature = "slim"))]
+pub mod c18;
+#[cfg(not(feature = "slim"))]
+pub mod c19;
+pub mod c20;
 
 pub fn all() -> Vec<PropDef> {
     vec![
+        #[cfg(not(feature = "slim"))]
         c01::def(),
+        #[cfg(not(feature = "slim"))]
         c02::def(),
+        #[cfg(not(feature = "slim"))]
         c03::def(),
         c04::def(),
         c05::def(),
         c06::def(),
+        #[cfg(not(feature = "slim"))]
         c07::def(),
         c08::def(),
+        #[cfg(not(feature = "slim"))]
         c09::def(),
         c10::def(),
         c11::def(),
         c12::def(),
+        c13::def(),
+        #[cfg(not(feature = "slim"))]
+        c14::def(),
+        #[cfg(not(feature = "slim"))]
+        c15::def(),
+        c16::def(),
+        #[cfg(not(feature = "slim"))]
+        c17::def(),
+        #[cfg(not(feature = "slim"))]
+        c18::def(),
+        #[cfg(not(feature = "slim"))]
+        c19::def(),
+        c20::def(),
     ]
 }
